@@ -181,6 +181,8 @@ func c17TwoRestores(c *core.Ctx, idx int) {
 		} else {
 			secondDuringFirst.Add(1)
 		}
+		// and it takes its time (re-reading what the restore replaced): the next restore's notification finds it busy
+		time.Sleep(80 * time.Millisecond)
 		first.Add(1)
 	})
 	db.AddRestoreListener(func() { second.Add(1) })
